@@ -353,7 +353,7 @@ func runC19(c *Ctx) {
 				}
 			}
 			c.Check(bad == "", "C19.5-cleanup", FuncName(streamClose)+"|first closer always removes the stream", p.Pos(streamClose.Pos()), orDefault(bad, "the goroutine that wins closed.Swap always reaches pool.removeStream"))
-			c.RequireGate("C19.5-cleanup", streamClose, won, CallSinks(streamClose, CalleeFn(removeStream), false), "pool.removeStream")
+			c.RequireGate("C19.5-cleanup", streamClose, won, CallSinksX(streamClose, CalleeFn(removeStream), false), "pool.removeStream")
 		}
 		// removeStream: all three indexes
 		{
